@@ -50,6 +50,13 @@ def vertices(origin: int, ver: int, n: int = N_VERT):
     return np.array([[100.0 * origin + 10.0 * ver + i, float(i), float(origin)] for i in range(n)])
 
 
+def _scribble(arr):
+    """The caller re-uses the buffer it handed to the library (a work array refilled in a
+    loop): an entity must not alias it."""
+    if isinstance(arr, np.ndarray) and arr.dtype.kind in "fiu":
+        arr[...] = -777
+
+
 def metadata(origin: int, ver: int):
     if ver == 0:
         return None
@@ -153,6 +160,10 @@ class Refused(Exception):
     pass
 
 
+class LostEntity(Exception):
+    """An entity the model considers alive cannot be looked up by its identifier."""
+
+
 def _with_gc_at_every_line(fn, args):
     """Most aggressive GC schedule: a full collection at every function entry and exit inside
     geoh5py while `fn` runs (the default schedule - no collection at all except where the
@@ -219,7 +230,7 @@ class TreeExec:
             return self.get_ws2().root
         e = self.wsof(handle).get_entity(self.uid[handle])[0]
         if e is None:
-            raise KeyError(f"entity #{handle} ({self.uid[handle]}) not found in workspace")
+            raise LostEntity(handle, self.model.nodes[handle].kind if handle in self.model.nodes else "?")
         if self.hold:
             self.held.append(e)
         return e
@@ -245,6 +256,11 @@ class TreeExec:
             res = f"refused:{err}"
             if not str(err).startswith("expected:"):
                 self.unexpected.append((len(self.results), list(op), str(err)))
+        except LostEntity as err:
+            # the model says the entity is alive but the workspace cannot find it by uid
+            self.model = pre
+            res = "lost-entity"
+            self.events.append(("lost-entity", err.args[0], err.args[1], len(self.results)))
         self.results.append(res)
         return res
 
@@ -303,7 +319,9 @@ class TreeExec:
         nd.gsrc = (nd.idx, 0)
         par = self.ent(parent)
         klass = getattr(objects, cls)
-        o = self._create(lambda: klass.create(par.workspace, name=nd.name, parent=par, vertices=vertices(nd.idx, 0), **kw), expect)
+        verts = vertices(nd.idx, 0)
+        o = self._create(lambda: klass.create(par.workspace, name=nd.name, parent=par, vertices=verts, **kw), expect)
+        _scribble(verts)
         self.uid[nd.idx] = o.uid
         self.keep(o)
 
@@ -329,6 +347,7 @@ class TreeExec:
             attr["value_map"] = {1: "one", 2: "two"}
         attr.update(kw)
         d = self._create(lambda: o.add_data({nd.name: attr}), expect)
+        _scribble(vals)
         self.uid[nd.idx] = d.uid
         self.keep(d)
 
@@ -368,7 +387,10 @@ class TreeExec:
         """One call removing every child of a parent (mixed kinds in one list)."""
         par = self.ent(parent)
         kids = list(self.model.kids(parent))
-        ents = [self.ent(k) for k in kids]
+        if parent in self.model.nodes and self.model.nodes[parent].kind == "object":
+            ents = list(par.children)  # data children AND property groups, in the object's own order
+        else:
+            ents = [self.ent(k) for k in kids]
         self._lib(lambda: par.remove_children(ents))
         del ents
         for k in kids:
@@ -418,13 +440,16 @@ class TreeExec:
         new = (nd.idx, nd.vsrc[1] + 1 if nd.vsrc[0] == nd.idx else 1)
         vals = payload(nd.dkind, new[0], new[1], self.n_values(None, nd.dkind))
         self._lib(lambda: setattr(x, "values", vals))
+        _scribble(vals)
         nd.vsrc = new
 
     def op_vertices(self, o):
         nd = self.model.nodes[o]
         x = self.ent(o)
         new = (nd.idx, nd.gsrc[1] + 1 if nd.gsrc[0] == nd.idx else 1)
-        self._lib(lambda: setattr(x, "vertices", vertices(*new)))
+        verts = vertices(*new)
+        self._lib(lambda: setattr(x, "vertices", verts))
+        _scribble(verts)
         nd.gsrc = new
 
     def op_meta(self, e):
@@ -708,6 +733,10 @@ SCENES["S4r"] = SCENES["S4"] + [["reopen"]]
 SCENES["S5"] = SCENES["S2"] + [["stats", 2], ["stats", 3], ["stats", 6]]
 # a cross-workspace copy that was removed again and garbage-collected: its identifiers are free
 SCENES["S6"] = SCENES["S1"] + [["copy", 1, "root2", True], ["rm_ws", 4], ["gc"]]
+# children of o1 in the order [data, property group, its only member]
+SCENES["S7"] = SCENES["S1"] + [["pg_add", 1, 2, "P"], ["add_data", 1, "fv"], ["pg_add", 1, 4, "P"], ["pg_rm", 1, 2, "P"]]
+# entities whose delete permission is off, as read back from the file
+SCENES["S8"] = SCENES["S4"] + [["flag", 1, "allow_delete"], ["flag", 2, "allow_delete"], ["flag", 5, "allow_delete"], ["reopen"]]
 SCENES["S2r"] = SCENES["S2"] + [["reopen"]]
 SCENES["S1r"] = SCENES["S1"] + [["reopen"]]
 
@@ -767,7 +796,7 @@ def enabled(model: Model, alpha: dict) -> list:
                 if d.idx != d2.idx and d.dkind == d2.dkind and d.dkind in ("fv", "fc") and d.tsrc is None and d2.tsrc is None:
                     ops.append(["retype", d.idx, d2.idx])
     if "rm_par_all" in kinds:
-        for h in containers:
+        for h in containers + [o.idx for o in objects]:
             kids = model.kids(h)
             if len(kids) >= 2:
                 ops.append(["rm_par_all", h])
